@@ -244,6 +244,7 @@ func checkC20(c *Ctx) {
 		}
 	}
 	c20Pure(c, onceState)
+	c20Held(c)
 	// Config.ticketKeys() hands the slice out under the read lock and callers read it after unlocking; Clone shares it
 	sharedSliceImmutable(c, "L-PUBLISHED", "gmtls", "sessionTicketKeys", 4,
 		"the published ticket-key slice is replaced as a whole, never written in place",
@@ -633,4 +634,116 @@ func guardedWrite(fa *ssa.FieldAddr) string {
 		}
 	}
 	return ""
+}
+
+// c20Held: the record-layer routines that assume a half-connection lock are only reachable with it held:
+// (*Conn).readRecord runs with c.in locked, (*Conn).writeRecordLocked and sendAlertLocked with c.out locked. Every
+// static call site is either dominated by an un-released Lock of that half-connection, or lies in a function whose
+// own call sites all satisfy this (checked up the call chain to the exported entry points).
+func c20Held(c *Ctx) {
+	rule := "L-HELD"
+	buildCallIndex(c.P)
+	halfOf := func(l *ssa.Call) string {
+		if len(l.Call.Args) == 0 {
+			return ""
+		}
+		v := l.Call.Args[0]
+		for {
+			fa, ok := v.(*ssa.FieldAddr)
+			if !ok {
+				return ""
+			}
+			n := fieldName(fa.X.Type(), fa.Field)
+			if n == "in" || n == "out" {
+				if strings.HasSuffix(strings.TrimPrefix(fa.X.Type().String(), "*"), "gmtls.Conn") {
+					return n
+				}
+			}
+			v = fa.X
+		}
+	}
+	holds := func(g *ssa.Function, at ssa.Instruction, half string) bool {
+		var locks, unlocks []*ssa.Call
+		for _, ci := range allCalls(g) {
+			call, ok := ci.(*ssa.Call)
+			if !ok {
+				continue
+			}
+			switch calleeID(&call.Call) {
+			case "(*sync.Mutex).Lock":
+				if halfOf(call) == half {
+					locks = append(locks, call)
+				}
+			case "(*sync.Mutex).Unlock":
+				if halfOf(call) == half {
+					unlocks = append(unlocks, call)
+				}
+			}
+		}
+		for _, l := range locks {
+			if !instrDominates(l, at) {
+				continue
+			}
+			released := false
+			for _, u := range unlocks {
+				if instrDominates(l, u) && instrDominates(u, at) {
+					released = true
+				}
+				if instrDominates(l, u) && instrReaches(u, at, nil) && !instrReaches(at, u, nil) {
+					released = true
+				}
+			}
+			if !released {
+				return true
+			}
+		}
+		return false
+	}
+	var check func(f *ssa.Function, half string, depth int, seen map[*ssa.Function]bool) (bool, string)
+	check = func(f *ssa.Function, half string, depth int, seen map[*ssa.Function]bool) (bool, string) {
+		if seen[f] {
+			return true, "" // recursion: decided by the other call sites
+		}
+		seen[f] = true
+		if depth > 8 {
+			return false, "call chain too deep at " + fname(f)
+		}
+		sites := callSiteIndex[f]
+		if addrTaken[f] {
+			return false, fname(f) + " is used as a function value"
+		}
+		if len(sites) == 0 {
+			return false, fname(f) + " has no caller in the repository and does not take the lock itself"
+		}
+		for _, cs := range sites {
+			g := cs.Parent()
+			if strings.HasSuffix(c.P.relFile(g.Pos()), "_test.go") {
+				continue
+			}
+			if holds(g, cs, half) {
+				continue
+			}
+			if ok, why := check(g, half, depth+1, seen); !ok {
+				if why == "" {
+					why = fname(g)
+				}
+				return false, "reached from " + fname(g) + " at " + c.P.pos(cs.Pos()) + " without c." + half + " locked (" + why + ")"
+			}
+		}
+		return true, ""
+	}
+	for _, e := range []struct{ fn, half string }{
+		{"(*Conn).readRecord", "in"},
+		{"(*Conn).writeRecordLocked", "out"},
+		{"(*Conn).sendAlertLocked", "out"},
+	} {
+		f := c.Fn("gmtls", e.fn)
+		if f == nil {
+			c.Missing(rule, "gmtls."+e.fn, "method", "not found")
+			continue
+		}
+		c.Evals++
+		ok, why := check(f, e.half, 0, map[*ssa.Function]bool{})
+		c.Check(ok, rule, fname(f), "only reachable with c."+e.half+" locked", fmt.Sprintf("%d direct call sites", len(callSiteIndex[f])), "the routine updates the "+e.half+"-bound half connection (sequence number, cipher state, buffers) and assumes its mutex is held, but it is "+why+": concurrent Read/Write/Close calls race on the record state", f.Pos())
+	}
 }
